@@ -18,7 +18,7 @@
 (*                              (the acknowledgement of a silent Deliver)      *)
 (*   HsEnd   {c, id}            the handshake ended; id = certificate that was *)
 (*                              presented, 0 = it failed            = HsEnd    *)
-(* Silent: HsHit HsFallback HsMiss HsJoin HsLead FlightRet Deliver TimerFire TRet. *)
+(* Silent: HsHit HsFallback HsMiss HsJoin HsLead IssueDone FlightRet Deliver TimerFire TRet. *)
 EXTENDS VaultCerts, Json, IOUtils, TLC
 
 TraceLog == ndJsonDeserialize(IOEnv.VERIF_TRACE)
@@ -66,7 +66,7 @@ THsEnd == /\ More /\ E.ev = "HsEnd"
 Quiet == UNCHANGED <<l, acks>>
 TSilent ==
     \/ \E c \in Clients : (HsHit(c) \/ HsFallback(c) \/ HsMiss(c) \/ HsJoin(c) \/ HsCached(c) \/ HsLead(c)) /\ Quiet
-    \/ \E n \in PNames : FlightRet(n) /\ Quiet
+    \/ \E n \in PNames : (IssueDone(n) \/ FlightRet(n)) /\ Quiet
     \/ \E s \in pending : Deliver(s) /\ acks' = Append(acks, s) /\ UNCHANGED l
     \/ \E i \in Ids : TimerFire(i) /\ Quiet
     \/ \E t \in tfl : TRet(t) /\ Quiet
@@ -102,6 +102,7 @@ LIssue == /\ More /\ E.ev = "Issue"
           /\ l' = l + 1
           /\ UNCHANGED <<store, cache, pending, tfl, hs, pfault, asked, presentedExpired, dupIssue, benv, avars, cvars, acks, opts, missable>>
 LResp == /\ More /\ E.ev = "Resp" /\ IssueResp(E.name) /\ l' = l + 1 /\ UNCHANGED <<acks, opts, missable>>
+LIssueDone == \E n \in PNames : IssueDone(n) /\ UNCHANGED <<l, acks, opts, missable>>
 LFlightRet == \E n \in PNames :
           /\ FlightRet(n) /\ UNCHANGED <<l, acks, missable>>
           /\ opts' = [c \in Clients |-> IF Active(c) /\ hs[c].name = n /\ missable[c] THEN opts[c] \cup {flight[n].out} ELSE opts[c]]
@@ -112,7 +113,7 @@ LEnd == /\ More /\ E.ev = "HsEnd"
         /\ UNCHANGED <<certs, store, cache, pending, flight, tfl, pfault, asked, presentedExpired, dupIssue, benv, avars, cvars, acks, opts, missable>>
 TNext == \/ (TBReset /\ opts' = [c \in Clients |-> {}] /\ missable' = [c \in Clients |-> FALSE])
          \/ ((TPFault \/ TInstall) /\ UNCHANGED <<opts, missable>>)
-         \/ LStart \/ LDeliver \/ LIssue \/ LResp \/ LFlightRet \/ LEnd
+         \/ LStart \/ LDeliver \/ LIssue \/ LResp \/ LIssueDone \/ LFlightRet \/ LEnd
 TSpec == TInit /\ [][TNext]_tvars
 
 \* what the future depends on
